@@ -446,6 +446,9 @@ pub struct RefRun {
     /// flat indexes of instructions before which a prompt was shown
     pub prompts_before: Vec<usize>,
     pub stdin_used: usize,
+    /// order in which stdin lines are consumed: (true, k) = k-th script line at a prompt, (false, k) = k-th input
+    /// line of an INT 21h service
+    pub stdin_seq: Vec<(bool, usize)>,
 }
 
 /// dense-memory machine for whole programs
@@ -528,7 +531,7 @@ pub fn ref_run(flat: &Flat, image: &[u8], cfg: &RunCfg, q: &Quirks) -> RefRun {
     regs.r[FLAGS] = 0xF000;
     regs.r[CS] = 0xFFFF;
     let mut mach = Machine::new(regs);
-    mach.mem.dense = Some(image.to_vec());
+    mach.mem.dense = Some(std::sync::Arc::new(image.to_vec()));
     let mut events: Vec<Ev> = Vec::new();
     let mut trace = Vec::new();
     let mut prompts_before = Vec::new();
@@ -538,13 +541,14 @@ pub fn ref_run(flat: &Flat, image: &[u8], cfg: &RunCfg, q: &Quirks) -> RefRun {
     let start = match flat.labels.get("start") {
         Some(s) => *s,
         None => {
-            return RefRun { events, trace, stop: Stop::Halt, regs: mach.regs, mem: mach.mem.dense.take().unwrap(), prompts_before, stdin_used: 0 };
+            return RefRun { events, trace, stop: Stop::Halt, regs: mach.regs, mem: mach.mem.dense.take().map(|a| (*a).clone()).unwrap(), prompts_before, stdin_used: 0, stdin_seq: vec![] };
         }
     };
     let mut idx = start;
     let mut steps = 0usize;
     let line_of = |i: usize| cfg.lines.get(i).copied().unwrap_or(0);
     // prompt handling: returns false if the run must stop
+    let seq_cell: std::cell::RefCell<Vec<(bool, usize)>> = std::cell::RefCell::new(Vec::new());
     let mut prompt = |events: &mut Vec<Ev>, mach: &Machine, script_pos: &mut usize| -> Option<Stop> {
         loop {
             events.push(Ev::Prompt);
@@ -552,6 +556,7 @@ pub fn ref_run(flat: &Flat, image: &[u8], cfg: &RunCfg, q: &Quirks) -> RefRun {
                 return Some(Stop::EofAtPrompt);
             }
             let c = &cfg.script[*script_pos];
+            seq_cell.borrow_mut().push((true, *script_pos));
             *script_pos += 1;
             match c {
                 PromptCmd::Next(_) => return None,
@@ -673,12 +678,14 @@ pub fn ref_run(flat: &Flat, image: &[u8], cfg: &RunCfg, q: &Quirks) -> RefRun {
                             }
                             0x01 => {
                                 let line: Vec<u8> = cfg.input_lines.and_then(|l| l.get(input_pos).cloned()).unwrap_or_default();
+                                seq_cell.borrow_mut().push((false, input_pos));
                                 input_pos += 1;
                                 let b = line.first().copied().unwrap_or(0);
                                 mach.regs.r[AX] = (mach.regs.r[AX] & 0xFF00) | b as u16;
                             }
                             0x0A => {
                                 let line: Vec<u8> = cfg.input_lines.and_then(|l| l.get(input_pos).cloned()).unwrap_or_default();
+                                seq_cell.borrow_mut().push((false, input_pos));
                                 input_pos += 1;
                                 let start = phys(mach.regs.r[DS], mach.regs.r[DX]);
                                 let cap = mach.mem.rd(start) as usize;
@@ -719,8 +726,9 @@ pub fn ref_run(flat: &Flat, image: &[u8], cfg: &RunCfg, q: &Quirks) -> RefRun {
             break;
         }
     }
-    let mem = mach.mem.dense.take().unwrap();
-    RefRun { events, trace, stop, regs: mach.regs, mem, prompts_before, stdin_used: script_pos }
+    let mem = mach.mem.dense.take().map(|a| std::sync::Arc::try_unwrap(a).unwrap_or_else(|a| (*a).clone())).unwrap();
+    let stdin_seq = seq_cell.into_inner();
+    RefRun { events, trace, stop, regs: mach.regs, mem, prompts_before, stdin_used: script_pos, stdin_seq }
 }
 
 /// merge adjacent Chars events (the tokenizer of real output cannot see the boundaries)
